@@ -19,6 +19,8 @@ def fld(t, args=()):
 def ival(v):
     if v is None:
         return {"t": "null"}
+    if isinstance(v, dict):
+        return {"t": "o", "kv": [[k, ival(x)] for k, x in v.items()]}
     if isinstance(v, (list, tuple)):
         return {"t": "l", "v": [ival(x) for x in v]}
     if isinstance(v, bool):
@@ -48,6 +50,10 @@ TYPES = {
     "I": {"kind": "INTERFACE", "possible": ["A", "B"], "fields": {"x": fld(N("Int"))}},
     "U": {"kind": "UNION", "possible": ["A", "B"], "fields": {}},
 }
+# an input object type: a plain field, a non-null field with a default, a recursive field, a list field
+TYPES["In"] = {"kind": "INPUT_OBJECT", "fields": {}, "possible": [], "inputFields": fld(N("Int"), [
+    ("a", N("Int")), ("b", NN(N("Int")), 5), ("c", N("In")), ("l", L(NN(N("Int")))), ("r", NN(N("Int")))])["args"]}
+TYPES["Query"]["fields"]["h"] = fld(N("Int"), [("o", N("In")), ("ol", L(NN(N("In")))), ("od", NN(N("In")), {"r": 1, "a": 2})])
 TYPES["Mutation"] = {"kind": "OBJECT", "possible": [], "fields": dict(TYPES["Query"]["fields"])}
 TYPES["Subscription"] = {"kind": "OBJECT", "possible": [], "fields": {
     "ev": fld(N("A")), "evn": fld(NN(N("A"))), "num": fld(N("Int"), [("x", N("Int"), 2)]), "li": fld(L(NN(N("Int")))), "iface": fld(N("I"))}}
@@ -79,6 +85,8 @@ def lit(v):
         return "$" + v["n"]
     if v["t"] == "l":
         return "[" + ", ".join(lit(x) for x in v["v"]) + "]"
+    if v["t"] == "o":
+        return "{" + ", ".join(f"{k}: {lit(x)}" for k, x in v["kv"]) + "}"
     return str(v["v"])
 
 
@@ -86,6 +94,9 @@ def sdl():
     out = []
     for n, d in TYPES.items():
         if d["kind"] == "SCALAR":
+            continue
+        if d["kind"] == "INPUT_OBJECT":
+            out.append(f"input {n} {{ " + " ".join(a["name"] + ": " + tstr(a["type"]) + (" = " + lit(a["default"]) if a["hasDefault"] else "") for a in d["inputFields"]) + " }")
             continue
         if d["kind"] == "UNION":
             out.append(f"union {n} = " + " | ".join(d["possible"]))
@@ -211,6 +222,14 @@ class DocGen:
             if r < 0.35 and not (nonnull and not a["hasDefault"]):
                 continue   # not provided
             r2 = rnd.random()
+            if named_of(a["type"]) == "In":
+                v = self.obj_lit(2)
+                if a["type"][0] == "L":
+                    v = {"t": "l", "v": [self.obj_lit(1) for _ in range(rnd.randint(0, 2))]} if rnd.random() < 0.7 else v      # a single object is coerced to a list
+                elif r2 < 0.1 and not nonnull:
+                    v = {"t": "null"}
+                out.append([a["name"], v])
+                continue
             if a["type"][0] == "L" and r2 < 0.35:
                 # a list variable as the whole argument: vm ([Int!]) fits both, vl ([Int]) only nullable items
                 var = rnd.choice(["vm"] + ([] if a["type"][1][0] == "NN" else ["vl"]))
@@ -245,6 +264,38 @@ class DocGen:
                 self.used_vars.add(var)
                 out.append([a["name"], {"t": "var", "n": var}])
         return out
+
+    def obj_lit(self, depth):
+        """an object literal of the input type In that validation accepts: r is required, b (non-null with a default) may be
+        left out or given as a nullable variable, every field may be a variable of a compatible type"""
+        rnd = self.rnd
+        kv = []
+
+        def int_or_var(nonnull, has_default):
+            r = rnd.random()
+            if r < 0.5:
+                return {"t": "i", "v": rnd.randint(0, 9)}
+            if r < 0.6 and not nonnull:
+                return {"t": "null"}
+            var = rnd.choice(["vn", "vd"] + (["vi"] if (not nonnull or has_default) else []))
+            self.used_vars.add(var)
+            return {"t": "var", "n": var}
+        if rnd.random() < 0.6:
+            kv.append(["a", int_or_var(False, False)])
+        kv.append(["r", int_or_var(True, False)])
+        if rnd.random() < 0.6:
+            kv.append(["b", int_or_var(True, True)])
+        if depth > 0 and rnd.random() < 0.3:
+            kv.append(["c", self.obj_lit(depth - 1) if rnd.random() < 0.8 else {"t": "null"}])
+        if rnd.random() < 0.3:
+            kv.append(["l", {"t": "l", "v": [{"t": "i", "v": rnd.randint(0, 9)} for _ in range(rnd.randint(0, 2))]} if rnd.random() < 0.7
+                       else {"t": "var", "n": self.use("vm")}])
+        rnd.shuffle(kv)
+        return {"t": "o", "kv": kv}
+
+    def use(self, var):
+        self.used_vars.add(var)
+        return var
 
     def sel(self, tn, depth, in_frag=None):
         rnd = self.rnd
